@@ -76,8 +76,8 @@ ALPHABETS = ["01", "abc", "abcde", "0123456789", "0123456789abcdef", H64, "".joi
 # ---------------------------------------------------------------------------------------------
 def generate(rng, prop, tier):
     api = rng.choices(["getrandbytes", "getrandstr", "salt", "totp_new", "generate_secret", "genword", "genphrase", "django_disabled",
-                       "libpass_salt", "ctx_pin_salt", "generate_password", "libpass_hasher_salt", "salt_any"],
-                      [16, 16, 16, 5, 4, 8, 6, 3, 5, 6, 2, 5, 18])[0]
+                       "libpass_salt", "ctx_pin_salt", "generate_password", "libpass_hasher_salt", "salt_any", "django_wrapper"],
+                      [16, 16, 16, 5, 4, 8, 6, 3, 5, 6, 2, 5, 18, 3])[0]
     mode = rng.choices(["stream", "zeros", "ones", "counter", "single_bit"], [70, 8, 8, 8, 6])[0]
     p = {}
     if api == "getrandbytes":
@@ -95,11 +95,18 @@ def generate(rng, prop, tier):
         h = rng.choice(sorted(SALT_ANY))
         p["hasher"] = h
         p["size"] = rng.choice(SALT_ANY[h][1])
+    elif api == "django_wrapper":
+        # the Django-hasher adapter passlib.ext.django hands out for a passlib scheme: salts of encode() without / with the
+        # "generate one" marker, after a history that may include a call with an explicit salt
+        p["hasher"] = rng.choice(["sha256_crypt", "md5_crypt", "sha512_crypt", "pbkdf2_sha256"])
+        p["explicit_first"] = rng.random() < 0.6
+        p["marker"] = rng.random() < 0.5
     elif api == "totp_new":
         p["size"] = rng.choice([10, 16, 20, 20, 32, 64])
         p["alg"] = "sha1" if p["size"] <= 20 else "sha256" if p["size"] <= 32 else "sha512"
     elif api == "generate_secret":
         p["entropy"] = rng.choice([1, 8, 64, 128, 256])
+        p["charset"] = rng.choice([None, None, "0123456789abcdef", "01", "0123456789", "abcdefghijklmnopqrstuvwxyz"])
     elif api == "genword":
         p["entropy"] = rng.choice([None, None, 8, 48, 64, 100])
         p["length"] = rng.choice([None, None, 1, 4, 12, 30])
@@ -132,7 +139,7 @@ def generate(rng, prop, tier):
         p["hasher"] = rng.choice(["md5_crypt", "sha256_crypt", "pbkdf2_sha256", "bcrypt", "ldap_salted_sha1"])
     elif api == "generate_password":
         p["size"] = rng.choice([1, 4, 10, 20])
-    reps = rng.choice([50, 200, 600]) if api in ("salt", "salt_any", "totp_new", "genphrase", "django_disabled", "libpass_hasher_salt") else rng.choice([200, 1000, 3000])
+    reps = rng.choice([50, 200, 600]) if api in ("salt", "salt_any", "django_wrapper", "totp_new", "genphrase", "django_disabled", "libpass_hasher_salt") else rng.choice([200, 1000, 3000])
     return {"cfg": {"api": api, "params": p, "mode": mode, "reps": reps, "seed": rng.getrandbits(32),
                     "exhaustive": rng.random() < (0.5 if tier == "thorough" else 0.15), "flips": rng.randint(4, 24)}, "ops": []}
 
@@ -198,6 +205,35 @@ class _Gen:
 
                 self.alphabet = list("./ABCDEFGHIJKLMNOPQRSTUVWXYZabcdefghijklmnopqrstuvwxyz0123456789")
             self.call = call
+        elif a == "django_wrapper":
+            from django.conf import settings
+
+            if not settings.configured:
+                settings.configure()
+            from passlib.ext.django.utils import DjangoTranslator
+
+            h = p["hasher"]
+            H = getattr(passlib.hash, h)
+            Hc = H.using(rounds=MIN_COST[h]) if MIN_COST.get(h) is not None else H
+            w = DjangoTranslator().passlib_to_django(Hc)
+            kind, sizes, alpha = SALT_HASHERS[h]
+            self.kind = kind
+            self.hname = h
+            self.n = H.default_salt_size
+            if kind == "chars":
+                self.alphabet = list(alpha)
+            if p["explicit_first"]:
+                # history on the shared adapter object: one caller fixed the salt for ITS hash
+                w.encode("pw", "abcdefgh" if kind == "chars" else b"abcdefgh")
+
+            def call():
+                s = w.encode("pw", w.salt()) if p["marker"] else w.encode("pw")
+                ex = extract(s, only=(h,))
+                if ex is None:
+                    raise RuntimeError(f"extractor cannot read {s!r}")
+                return ex[2]
+
+            self.call = call
         elif a == "salt_any":
             h = p["hasher"]
             kind, sizes, alpha = SALT_ANY[h]
@@ -239,10 +275,11 @@ class _Gen:
         elif a == "generate_secret":
             from passlib.totp import generate_secret
 
-            cs = "ABCDEFGHIJKLMNOPQRSTUVWXYZabcdefghijklmnopqrstuvwxyz0123456789"
+            cs = p.get("charset") or "ABCDEFGHIJKLMNOPQRSTUVWXYZabcdefghijklmnopqrstuvwxyz0123456789"
             self.alphabet = list(cs)
             self.n = int(math.ceil(p["entropy"] * math.log(2, len(cs))))
-            self.call = lambda: generate_secret(p["entropy"])
+            self.requested = p["entropy"]
+            self.call = (lambda: generate_secret(p["entropy"], charset=cs)) if p.get("charset") else (lambda: generate_secret(p["entropy"]))
         elif a == "genword":
             from passlib import pwd
 
@@ -511,7 +548,7 @@ def _run(cfg, ctx, src, g):
     # ---- small spaces: ALL answers of the source (exhaustive enumeration of this sub-case): every declared value must be
     #      produced by the same number of answers, whether or not draw space and value space have the same size -------------
     v0, rec0 = _one(ctx, src, g, "reference for enumeration")
-    slow = api in ("salt", "salt_any", "totp_new", "genphrase", "django_disabled", "libpass_hasher_salt")
+    slow = api in ("salt", "salt_any", "django_wrapper", "totp_new", "genphrase", "django_disabled", "libpass_hasher_salt")
     if len(rec0) == 1 and S <= 2 ** 16:
         kind, r, _ = rec0[0]
         total = (1 << r) if kind == "getrandbits" else r
